@@ -682,6 +682,20 @@ pub fn judge(w: &World, run: &Run, focus: Option<&str>) -> (Verdict, RunInfo) {
                         ),
                     ));
                 }
+                // the printer's view (ErrorTrait) of these diagnostics is the same as the inherent one
+                let inherent: Vec<(usize, usize, String)> =
+                    f.errors.iter().map(|e| (e.start, e.end, e.msg.clone())).collect();
+                if f.trait_view != inherent {
+                    soft_f!(info, focus, viol(
+                        "S1",
+                        C12,
+                        "trait-view",
+                        format!(
+                            "`{}`: ErrorTrait::range()/message() of the syntax diagnostics {:?} differ from SyntaxError::range()/message() {:?}",
+                            f.path, f.trait_view, inherent
+                        ),
+                    ));
+                }
                 // S1 spans
                 for e in &f.errors {
                     info.s1_checked += 1;
@@ -1126,6 +1140,21 @@ pub fn judge(w: &World, run: &Run, focus: Option<&str>) -> (Verdict, RunInfo) {
     }
 
     // ------------------------------------------------------------------ S2 semantic spans
+    for l in &lists {
+        let inherent: Vec<(usize, usize, String)> =
+            l.diags.iter().map(|d| (d.start, d.end, d.kind.clone())).collect();
+        if l.trait_view != inherent {
+            soft!(info, focus, viol(
+                "S2",
+                C12,
+                "trait-view",
+                format!(
+                    "list `{}`: ErrorTrait::range()/message() of the semantic diagnostics {:?} differ from SemanticError::range()/kind() {:?}",
+                    l.tag, l.trait_view, inherent
+                ),
+            ));
+        }
+    }
     for (k, i) in order.iter().enumerate() {
         let inst = &m.insts[*i];
         match (&inst.text, &inst.facts) {
